@@ -298,146 +298,54 @@ theorem cmpArm_eq (la lb : List Label) (hl : la.length = lb.length) :
   | [x0, x1], [y0, y1], _ => simp [cmpArm, hashOrder]
   | x0 :: x1 :: x2 :: xs, y0 :: y1 :: y2 :: ys, _ => simp [cmpArm, hashOrder]
 
-/-! ## the `get_hash` memo: inductive invariant -/
+/-! ## the `get_hash` / `clone` memo: inductive invariant -/
+
+/-- what the invariant says about one thread; `h` is the true hash -/
+def Good (h : Nat) (s : Sys) (t : Nat) : Prop :=
+  match s.pc t with
+  | .storeHash v => v = h
+  | .storeFlag v => v = h
+  | .done v => v = h
+  | .loadHash => s.synced t = true ∧ s.hashed = true
+  | .cloneHash f => f = true → (s.synced t = true ∧ s.hashed = true)
+  | .cloned f v => f = true → v = h
+  | .cloneHashFirst => False
+  | .cloneFlagSecond _ => False
+  | _ => True
 
 /-- invariant of the memo under the code's orderings; `h` is the true hash -/
 structure Inv (h : Nat) (s : Sys) : Prop where
-  /-- every value a thread carries or has returned is the true hash -/
-  vals : ∀ t v, (s.pc t = .storeHash v ∨ s.pc t = .storeFlag v ∨ s.pc t = .done v) → v = h
+  /-- every value a thread carries or has returned is the true hash; a thread about to load `hash` after
+      reading `hashed == true` has synchronised; a finished clone that copied `hashed == true` copied the true
+      hash; no thread loads `hash` before `hashed` -/
+  good : ∀ t, Good h s t
   /-- `hash` holds the true hash from the first store on -/
   hashOk : s.hash = h ∨ (s.hashed = false ∧ ∀ t v, s.pc t ≠ .storeFlag v)
   /-- a visible `true` was released -/
   rel : s.hashed = true → s.flagReleased = true
-  /-- a thread about to load `hash` has synchronised, and the flag is up -/
-  loader : ∀ t, s.pc t = .loadHash → s.synced t = true ∧ s.hashed = true
 
-theorem Inv.step {h : Nat} {s : Sys} (inv : Inv h s) (t : Nat) : Inv h (step codeOrds h s t) := by
-  unfold MetricsVerif.Key.step
-  cases hpc : s.pc t with
-  | idle => simpa [hpc] using inv
-  | done v => simpa [hpc] using inv
-  | loadFlag =>
-    simp only [codeOrds, Bool.true_and]
-    by_cases hh : s.hashed = true
-    · have hr := inv.rel hh
-      simp only [hh, hr, if_true]
-      refine ⟨?_, ?_, ?_, ?_⟩
-      · intro u v hv
-        by_cases hu : u = t
-        · subst hu; simp [setPc] at hv
-        · simp only [setPc, hu, if_false] at hv; exact inv.vals u v hv
-      · rcases inv.hashOk with e | ⟨e, _⟩
-        · exact Or.inl e
-        · simp [hh] at e
-      · intro _; exact hr
-      · intro u hu
-        by_cases hut : u = t
-        · subst hut; simp [hh, setPc]
-        · simp only [setPc, hut, if_false] at hu ⊢
-          exact inv.loader u hu
-    · have hh' : s.hashed = false := by simpa using hh
-      simp only [hh', Bool.false_eq_true, if_false]
-      refine ⟨?_, ?_, ?_, ?_⟩
-      · intro u v hv
-        by_cases hu : u = t
-        · subst hu; simp [setPc] at hv; exact hv.symm
-        · simp only [setPc, hu, if_false] at hv; exact inv.vals u v hv
-      · rcases inv.hashOk with e | ⟨e, e2⟩
-        · exact Or.inl e
-        · refine Or.inr ⟨hh', ?_⟩
-          intro u v
-          by_cases hu : u = t
-          · subst hu; simp [setPc]
-          · simp only [setPc, hu, if_false]; exact e2 u v
-      · intro e; simp [setPc, hh'] at e
-      · intro u hu
-        by_cases hut : u = t
-        · subst hut; simp [setPc] at hu
-        · simp only [setPc, hut, if_false] at hu ⊢
-          exact inv.loader u hu
-  | loadHash =>
-    have ⟨hs, hh⟩ := inv.loader t hpc
-    have hhash : s.hash = h := by
-      rcases inv.hashOk with e | ⟨e, _⟩
-      · exact e
-      · simp [hh] at e
-    simp only [hs, if_true]
-    refine ⟨?_, ?_, ?_, ?_⟩
-    · intro u v hv
-      by_cases hu : u = t
-      · subst hu; simp [setPc] at hv; rw [← hv]; exact hhash
-      · simp only [setPc, hu, if_false] at hv; exact inv.vals u v hv
-    · exact Or.inl hhash
-    · exact inv.rel
-    · intro u hu
-      by_cases hut : u = t
-      · subst hut; simp [setPc] at hu
-      · simp only [setPc, hut, if_false] at hu ⊢
-        exact inv.loader u hu
-  | storeHash v =>
-    have hv : v = h := inv.vals t v (Or.inl hpc)
-    subst hv
-    refine ⟨?_, ?_, ?_, ?_⟩
-    · intro u w hw
-      by_cases hu : u = t
-      · subst hu; simp [setPc] at hw; exact hw.symm
-      · simp only [setPc, hu, if_false] at hw; exact inv.vals u w hw
-    · exact Or.inl (by simp [setPc])
-    · exact inv.rel
-    · intro u hu
-      by_cases hut : u = t
-      · subst hut; simp [setPc] at hu
-      · simp only [setPc, hut, if_false] at hu ⊢
-        exact inv.loader u hu
-  | storeFlag v =>
-    have hv : v = h := inv.vals t v (Or.inr (Or.inl hpc))
-    subst hv
-    have hhash : s.hash = v := by
-      rcases inv.hashOk with e | ⟨_, e⟩
-      · exact e
-      · exact absurd hpc (e t v)
-    refine ⟨?_, ?_, ?_, ?_⟩
-    · intro u w hw
-      by_cases hu : u = t
-      · subst hu; simp [setPc] at hw; exact hw.symm
-      · simp only [setPc, hu, if_false] at hw; exact inv.vals u w hw
-    · exact Or.inl (by simpa [setPc] using hhash)
-    · intro _; simp [setPc, codeOrds]
-    · intro u hu
-      by_cases hut : u = t
-      · subst hut; simp [setPc] at hu
-      · simp only [setPc, hut, if_false] at hu ⊢
-        exact ⟨(inv.loader u hu).1, trivial⟩
+theorem Inv.vals {h : Nat} {s : Sys} (inv : Inv h s) (t v : Nat)
+    (hv : s.pc t = .storeHash v ∨ s.pc t = .storeFlag v ∨ s.pc t = .done v) : v = h := by
+  have g := inv.good t
+  unfold Good at g
+  rcases hv with e | e | e <;> simpa [e] using g
 
-theorem Inv.run {h : Nat} (sched : List Nat) : ∀ {s : Sys}, Inv h s → Inv h (run codeOrds h s sched) := by
-  induction sched with
-  | nil => intro s inv; exact inv
-  | cons t ts ih => intro s inv; exact ih (inv.step t)
+theorem Inv.cvals {h : Nat} {s : Sys} (inv : Inv h s) (t v : Nat) (hv : s.pc t = .cloned true v) : v = h := by
+  have g := inv.good t
+  unfold Good at g
+  simpa [hv] using g
 
-theorem inv_freshStatic (h n : Nat) : Inv h (freshStatic n) := by
-  refine ⟨?_, ?_, ?_, ?_⟩
-  · intro t v hv; simp only [freshStatic] at hv; split at hv <;> simp at hv
-  · refine Or.inr ⟨rfl, ?_⟩
-    intro t v; simp only [freshStatic]; split <;> simp
-  · intro e; simp [freshStatic] at e
-  · intro t ht; simp only [freshStatic] at ht; split at ht <;> simp at ht
-
-theorem inv_freshBuilt (h n : Nat) : Inv h (freshBuilt h n) := by
-  refine ⟨?_, Or.inl rfl, fun _ => rfl, ?_⟩
-  · intro t v hv; simp only [freshBuilt] at hv; split at hv <;> simp at hv
-  · intro t ht; simp only [freshBuilt] at ht; split at ht <;> simp at ht
-
-/-! ### every call finishes within three of its own steps -/
-
-/-- own steps still needed -/
-def PC.rank : PC → Nat
-  | .idle => 0 | .loadFlag => 3 | .storeHash _ => 2 | .loadHash => 1 | .storeFlag _ => 1 | .done _ => 0
+theorem Inv.hash_of_hashed {h : Nat} {s : Sys} (inv : Inv h s) (hh : s.hashed = true) : s.hash = h := by
+  rcases inv.hashOk with e | ⟨e, _⟩
+  · exact e
+  · rw [hh] at e; cases e
 
 theorem step_pc_other (o : Ords) (h : Nat) (s : Sys) (t u : Nat) (hu : u ≠ t) : (step o h s t).pc u = s.pc u := by
   unfold MetricsVerif.Key.step
   cases hpc : s.pc t with
   | idle => rfl
   | done v => rfl
+  | cloned f v => rfl
   | loadFlag =>
     by_cases hh : s.hashed = true
     · by_cases hr : (o.flagLoadAcquire && s.flagReleased) = true <;> simp [hh, hr, setPc, hu]
@@ -445,19 +353,231 @@ theorem step_pc_other (o : Ords) (h : Nat) (s : Sys) (t u : Nat) (hu : u ≠ t) 
   | loadHash => simp [setPc, hu]
   | storeHash v => simp [setPc, hu]
   | storeFlag v => simp [setPc, hu]
+  | cloneName => simp [setPc, hu]
+  | cloneLabels => simp [setPc, hu]
+  | cloneFlag => simp only [syncIf]; split <;> simp [setPc, hu]
+  | cloneHash f => simp [setPc, hu]
+  | cloneHashFirst => simp [setPc, hu]
+  | cloneFlagSecond v => simp only [syncIf]; split <;> simp [setPc, hu]
 
-theorem step_rank (o : Ords) (h : Nat) (s : Sys) (t : Nat) :
-    ((step o h s t).pc t).rank ≤ (s.pc t).rank - 1 ∧ ((step o h s t).pc t = .idle ↔ s.pc t = .idle) := by
+theorem step_synced_other (o : Ords) (h : Nat) (s : Sys) (t u : Nat) (hu : u ≠ t) :
+    (step o h s t).synced u = s.synced u := by
   unfold MetricsVerif.Key.step
   cases hpc : s.pc t with
-  | idle => simp [hpc, PC.rank]
-  | done v => simp [hpc, PC.rank]
+  | idle => rfl
+  | done v => rfl
+  | cloned f v => rfl
   | loadFlag =>
     by_cases hh : s.hashed = true
-    · by_cases hr : (o.flagLoadAcquire && s.flagReleased) = true <;> simp [hh, hr, setPc, PC.rank]
-    · simp [hh, setPc, PC.rank]
-  | loadHash => simp [setPc, PC.rank]
-  | storeHash v => simp [setPc, PC.rank]
-  | storeFlag v => simp [setPc, PC.rank]
+    · by_cases hr : (o.flagLoadAcquire && s.flagReleased) = true <;> simp [hh, hr, setPc, hu]
+    · simp [hh, setPc]
+  | loadHash => simp [setPc]
+  | storeHash v => simp [setPc]
+  | storeFlag v => simp [setPc]
+  | cloneName => simp [setPc]
+  | cloneLabels => simp [setPc]
+  | cloneFlag => simp only [syncIf]; split <;> simp [setPc, hu]
+  | cloneHash f => simp [setPc]
+  | cloneHashFirst => simp [setPc]
+  | cloneFlagSecond v => simp only [syncIf]; split <;> simp [setPc, hu]
+
+theorem step_hashed_mono (o : Ords) (h : Nat) (s : Sys) (t : Nat) (hh : s.hashed = true) :
+    (step o h s t).hashed = true := by
+  unfold MetricsVerif.Key.step
+  cases hpc : s.pc t with
+  | idle => exact hh
+  | done v => exact hh
+  | cloned f v => exact hh
+  | loadFlag => by_cases hr : (o.flagLoadAcquire && s.flagReleased) = true <;> simp [hh, hr, setPc]
+  | loadHash => simpa [setPc] using hh
+  | storeHash v => simpa [setPc] using hh
+  | storeFlag v => simp [setPc]
+  | cloneName => simpa [setPc] using hh
+  | cloneLabels => simpa [setPc] using hh
+  | cloneFlag => simp only [syncIf]; split <;> simpa [setPc] using hh
+  | cloneHash f => simpa [setPc] using hh
+  | cloneHashFirst => simpa [setPc] using hh
+  | cloneFlagSecond v => simp only [syncIf]; split <;> simpa [setPc] using hh
+
+/-- the other threads' part of the invariant is not disturbed by a step of `t` -/
+theorem Good.frame {h : Nat} {s s' : Sys} {u : Nat} (hpc : s'.pc u = s.pc u) (hsy : s'.synced u = s.synced u)
+    (hmono : s.hashed = true → s'.hashed = true) (g : Good h s u) : Good h s' u := by
+  unfold Good at *
+  rw [hpc, hsy]
+  cases e : s.pc u <;> simp only [e] at g ⊢ <;> first | exact g | exact ⟨g.1, hmono g.2⟩ | (intro hf; exact ⟨(g hf).1, hmono (g hf).2⟩)
+
+theorem Inv.step {h : Nat} {s : Sys} (inv : Inv h s) (t : Nat) : Inv h (step codeOrds h s t) := by
+  have gt := inv.good t
+  have others : ∀ u, u ≠ t → Good h (MetricsVerif.Key.step codeOrds h s t) u := fun u hu =>
+    Good.frame (step_pc_other _ _ _ _ _ hu) (step_synced_other _ _ _ _ _ hu) (step_hashed_mono _ _ _ _) (inv.good u)
+  have noFlagStore : ∀ (s' : Sys), (∀ u, u ≠ t → s'.pc u = s.pc u) → (∀ v, s'.pc t ≠ .storeFlag v) →
+      (∀ u v, s.pc u ≠ .storeFlag v) → ∀ u v, s'.pc u ≠ .storeFlag v := by
+    intro s' h1 h2 h3 u v
+    by_cases hu : u = t
+    · subst hu; exact h2 v
+    · rw [h1 u hu]; exact h3 u v
+  unfold Good at gt
+  refine ⟨fun u => if hu : u = t then ?_ else others u hu, ?_, ?_⟩
+  · -- thread `t` itself
+    subst hu
+    unfold Good MetricsVerif.Key.step
+    cases hpc : s.pc u with
+    | idle => simp [hpc]
+    | done v => simpa [hpc] using gt
+    | cloned f v => simpa [hpc] using gt
+    | loadFlag =>
+      by_cases hh : s.hashed = true
+      · have hr := inv.rel hh
+        simp [hh, hr, codeOrds, setPc]
+      · simp [hh, setPc]
+    | loadHash =>
+      rw [hpc] at gt
+      simp [setPc, gt.1, inv.hash_of_hashed gt.2]
+    | storeHash v => rw [hpc] at gt; simpa [setPc] using gt
+    | storeFlag v => rw [hpc] at gt; simpa [setPc] using gt
+    | cloneName => simp [setPc]
+    | cloneLabels => simp [setPc, codeOrds]
+    | cloneFlag =>
+      by_cases hh : s.hashed = true
+      · have hr := inv.rel hh
+        simp [hh, hr, codeOrds, setPc, syncIf]
+      · simp [hh, setPc, syncIf]
+    | cloneHash f =>
+      rw [hpc] at gt
+      simp only [setPc, readHash, if_true]
+      intro hf
+      have := gt hf
+      simp [this.1, inv.hash_of_hashed this.2]
+    | cloneHashFirst => rw [hpc] at gt; exact gt.elim
+    | cloneFlagSecond v => rw [hpc] at gt; exact gt.elim
+  · -- `hash` is right from the first store on
+    unfold MetricsVerif.Key.step
+    cases hpc : s.pc t with
+    | idle => exact inv.hashOk
+    | done v => exact inv.hashOk
+    | cloned f v => exact inv.hashOk
+    | loadFlag =>
+      by_cases hh : s.hashed = true
+      · have hr := inv.rel hh
+        simp only [hh, hr, codeOrds, Bool.and_self, if_true]
+        exact Or.inl (inv.hash_of_hashed hh)
+      · simp only [hh, if_false, Bool.false_eq_true]
+        rcases inv.hashOk with e | ⟨e, e2⟩
+        · exact Or.inl e
+        · refine Or.inr ⟨e, noFlagStore _ (fun u hu => by simp [setPc, hu]) (fun v => by simp [setPc]) e2⟩
+    | loadHash =>
+      rcases inv.hashOk with e | ⟨e, e2⟩
+      · exact Or.inl e
+      · refine Or.inr ⟨e, noFlagStore _ (fun u hu => by simp [setPc, hu]) (fun v => by simp [setPc]) e2⟩
+    | storeHash v => rw [hpc] at gt; exact Or.inl (by simpa [setPc] using gt)
+    | storeFlag v =>
+      rw [hpc] at gt
+      rcases inv.hashOk with e | ⟨_, e2⟩
+      · exact Or.inl (by simpa [setPc] using e)
+      · exact absurd hpc (e2 t v)
+    | cloneName =>
+      rcases inv.hashOk with e | ⟨e, e2⟩
+      · exact Or.inl e
+      · refine Or.inr ⟨e, noFlagStore _ (fun u hu => by simp [setPc, hu]) (fun v => by simp [setPc]) e2⟩
+    | cloneLabels =>
+      rcases inv.hashOk with e | ⟨e, e2⟩
+      · exact Or.inl e
+      · refine Or.inr ⟨e, noFlagStore _ (fun u hu => by simp [setPc, hu]) (fun v => by simp [setPc, codeOrds]) e2⟩
+    | cloneFlag =>
+      rcases inv.hashOk with e | ⟨e, e2⟩
+      · left; simp only [syncIf]; split <;> simpa [setPc] using e
+      · right
+        simp only [e, Bool.false_and, syncIf, Bool.false_eq_true, if_false]
+        exact ⟨e, noFlagStore _ (fun u hu => by simp [setPc, hu]) (fun v => by simp [setPc]) e2⟩
+    | cloneHash f =>
+      rcases inv.hashOk with e | ⟨e, e2⟩
+      · exact Or.inl e
+      · refine Or.inr ⟨e, noFlagStore _ (fun u hu => by simp [setPc, hu]) (fun v => by simp [setPc]) e2⟩
+    | cloneHashFirst => rw [hpc] at gt; exact gt.elim
+    | cloneFlagSecond v => rw [hpc] at gt; exact gt.elim
+  · -- a visible `true` was released
+    unfold MetricsVerif.Key.step
+    cases hpc : s.pc t with
+    | idle => exact inv.rel
+    | done v => exact inv.rel
+    | cloned f v => exact inv.rel
+    | loadFlag =>
+      by_cases hh : s.hashed = true
+      · have hr := inv.rel hh
+        simp [hh, hr, codeOrds, setPc]
+      · simp [hh, setPc]
+    | loadHash => simpa [setPc] using inv.rel
+    | storeHash v => simpa [setPc] using inv.rel
+    | storeFlag v => simp [setPc, codeOrds]
+    | cloneName => simpa [setPc] using inv.rel
+    | cloneLabels => simpa [setPc] using inv.rel
+    | cloneFlag => simp only [syncIf]; split <;> simpa [setPc] using inv.rel
+    | cloneHash f => simpa [setPc] using inv.rel
+    | cloneHashFirst => simpa [setPc] using inv.rel
+    | cloneFlagSecond v => simp only [syncIf]; split <;> simpa [setPc] using inv.rel
+
+theorem Inv.run {h : Nat} (sched : List Nat) : ∀ {s : Sys}, Inv h s → Inv h (run codeOrds h s sched) := by
+  induction sched with
+  | nil => intro s inv; exact inv
+  | cons t ts ih => intro s inv; exact ih (inv.step t)
+
+theorem inv_freshStatic (h n : Nat) : Inv h (freshStatic n) := by
+  refine ⟨?_, ?_, ?_⟩
+  · intro t; by_cases ht : t < n <;> simp [Good, freshStatic, ht]
+  · refine Or.inr ⟨rfl, ?_⟩
+    intro t v; simp only [freshStatic]; split <;> simp
+  · intro e; simp [freshStatic] at e
+
+theorem inv_freshBuilt (h n : Nat) : Inv h (freshBuilt h n) := by
+  refine ⟨?_, Or.inl rfl, fun _ => rfl⟩
+  intro t; by_cases ht : t < n <;> simp [Good, freshBuilt, ht]
+
+/-- any key whose memo was constructed consistently (`hashed = true` only together with the true hash), shared
+    by any number of `get_hash()` and `clone()` callers -/
+theorem inv_freshOf (h : Nat) (f : Bool) (v : Nat) (roles : Nat → Role) (hfv : f = true → v = h) :
+    Inv h (freshOf f v roles) := by
+  refine ⟨?_, ?_, ?_⟩
+  · intro t; unfold Good; simp only [freshOf]; cases roles t <;> simp [Role.start]
+  · cases f with
+    | true => exact Or.inl (hfv rfl)
+    | false =>
+      refine Or.inr ⟨rfl, ?_⟩
+      intro t w; simp only [freshOf]; cases roles t <;> simp [Role.start]
+  · intro e; simpa [freshOf] using e
+
+/-! ### every call finishes within a bounded number of its own steps -/
+
+/-- own steps still needed -/
+def PC.rank : PC → Nat
+  | .idle => 0 | .loadFlag => 3 | .storeHash _ => 2 | .loadHash => 1 | .storeFlag _ => 1 | .done _ => 0
+  | .cloneName => 4 | .cloneLabels => 3 | .cloneFlag => 2 | .cloneHash _ => 1
+  | .cloneHashFirst => 2 | .cloneFlagSecond _ => 1 | .cloned _ _ => 0
+
+/-- the thread is inside (or has finished) a `clone()` -/
+def PC.isClone : PC → Bool
+  | .cloneName | .cloneLabels | .cloneFlag | .cloneHash _ | .cloneHashFirst | .cloneFlagSecond _ | .cloned _ _ => true
+  | _ => false
+
+theorem step_rank (o : Ords) (h : Nat) (s : Sys) (t : Nat) :
+    ((step o h s t).pc t).rank ≤ (s.pc t).rank - 1 ∧ ((step o h s t).pc t = .idle ↔ s.pc t = .idle)
+    ∧ ((step o h s t).pc t).isClone = (s.pc t).isClone := by
+  unfold MetricsVerif.Key.step
+  cases hpc : s.pc t with
+  | idle => simp [hpc, PC.rank, PC.isClone]
+  | done v => simp [hpc, PC.rank, PC.isClone]
+  | cloned f v => simp [hpc, PC.rank, PC.isClone]
+  | loadFlag =>
+    by_cases hh : s.hashed = true
+    · by_cases hr : (o.flagLoadAcquire && s.flagReleased) = true <;> simp [hh, hr, setPc, PC.rank, PC.isClone]
+    · simp [hh, setPc, PC.rank, PC.isClone]
+  | loadHash => simp [setPc, PC.rank, PC.isClone]
+  | storeHash v => simp [setPc, PC.rank, PC.isClone]
+  | storeFlag v => simp [setPc, PC.rank, PC.isClone]
+  | cloneName => simp [setPc, PC.rank, PC.isClone]
+  | cloneLabels => cases o.cloneFlagFirst <;> simp [setPc, PC.rank, PC.isClone]
+  | cloneFlag => simp only [syncIf]; split <;> simp [setPc, PC.rank, PC.isClone]
+  | cloneHash f => simp [setPc, PC.rank, PC.isClone]
+  | cloneHashFirst => simp [setPc, PC.rank, PC.isClone]
+  | cloneFlagSecond v => simp only [syncIf]; split <;> simp [setPc, PC.rank, PC.isClone]
 
 end MetricsVerif.Key
